@@ -219,7 +219,24 @@ def rand_cfg(rng):
     c["cleanup"] = opt(0.3, lambda: rng.choice([0, 1]))
     c["sleep_mask"] = opt(0.3, lambda: rng.choice([0, 1]))
     c["data_store_size"] = opt(0.3, lambda: rng.randrange(0, 64))
-    c["gate"] = opt(0.4, lambda: [rng.choice([0, 1]) if rng.random() < 0.6 else 1 for _ in range(23)])
+    def gate():
+        # vectors at and next to the group boundaries (all on, all but one, one group only) as well as random ones
+        v = [1] * 23
+        kind = rng.choice(["all", "minus1", "minus2", "comms_core", "core", "random", "random"])
+        if kind == "minus1":
+            v[rng.choice([22, 22, 0, 1, rng.randrange(23)])] = 0
+        elif kind == "minus2":
+            v[22] = 0
+            v[rng.randrange(22)] = 0
+        elif kind == "comms_core":
+            v[22] = 0
+        elif kind == "core":
+            v = [0, 0] + [1] * 20 + [rng.choice([0, 1])]
+        elif kind == "random":
+            v = [rng.choice([0, 1]) for _ in range(23)]
+        return v
+
+    c["gate"] = opt(0.5, gate)
     c["data_required"] = opt(0.3, lambda: rng.choice([0, 1]))
     return c
 
